@@ -9,7 +9,7 @@ def _replays(pol, cap, combos):
 
 
 def models(tier):
-    objs = [1, 3, 8, 64] if tier == "thorough" else [1, 8, 64]
+    objs = [1, 3, 8, 64, 65, 200] if tier == "thorough" else [1, 8, 64, 200]      # element sizes on both sides of 64 bytes
     if tier == "cross":
         cfgs = [("exact", 0, 3), ("linear", 2, 3), ("double", 1, 3)]
     else:
@@ -72,5 +72,5 @@ def randoms(tier, rng):
         cap = rng.choice([0, 1, 5, 16])
         out.append(dict(tag=pol, segs=rand_script(rng, nseg, steps, maxn),
                         trace_consts=dict(MaxLen=100000, Vals={1, 2, 3, 4}, Policy=pol, InitCap=cap),
-                        replays=_replays(pol, cap, [(rng.choice([1, 3, 8, 64]), rng.randint(0, 3))])))
+                        replays=_replays(pol, cap, [(rng.choice([1, 3, 8, 64, 65, 129, 200]), rng.randint(0, 4))])))
     return out
